@@ -39,6 +39,13 @@ class XLoop(vloop.VLoop):
         # timers and call_soon_threadsafe land as well.
         self.ext_mode = False
         self.ext_auto = False  # no exploration: complete pending external events at once, in creation order
+        # late wake-ups: when nothing is runnable and virtual time advances to the next timer, the environment may
+        # overshoot its due time by one of `lag_choices` (asyncio.sleep guarantees only AT LEAST the delay), at most
+        # `lag_budget` times per execution
+        self.lag_choices = (0,)
+        self.lag_budget = 0
+        self.lags_used = 0
+        self.lag_log = []
         self.ext_pending = []
 
     def create_task(self, coro, *, name=None, context=None):
@@ -123,6 +130,14 @@ class XLoop(vloop.VLoop):
                 self._ready.append(h)
         if self.quiescent_hook is not None and not ready and k == 0:
             self.quiescent_hook()
+        if not ready and k == 0 and self.lags_used < self.lag_budget and len(self.lag_choices) > 1 and not self.ext_auto:
+            t = self._next_timer()
+            if t is not None:
+                c = self.chooser.choose(len(self.lag_choices), f'late-wake-up@{round(t._when - self._vtime, 9)}', self.full_state())
+                if c:
+                    self.lags_used += 1
+                    self.lag_log.append((t._when, self.lag_choices[c]))
+                    self._vtime = max(self._vtime, t._when + self.lag_choices[c])
         saved = self.reorder_ready
         self.reorder_ready = False
         try:
@@ -139,7 +154,7 @@ class XLoop(vloop.VLoop):
                                   if not h._cancelled and h._when > self._vtime))
             # where every live task is (await chain): a wake-up label alone does not say which await it resumes
             pcs = tuple((t.get_name(), t.cancelling(), pc(t)) for t in self._vf_tasks if not t.done())
-            return (live, pend, due, timers, pcs)
+            return (live, pend, due, timers, pcs, self.lags_used)
         if not self.fifo_plumbing:
             return super().sched_state()
         # task steps as a set (every order of them is explored), plumbing callbacks in their FIFO order
